@@ -578,12 +578,15 @@ func (fr *frame) execConvert(st *state, v *ssa.Convert) {
 	case from == "Int" && to == "Real":
 		fr.regs[v] = app("to_real", x)
 	case from == "Real" && to == "Int":
-		r := sc.declare("toint", "Int")
+		// f2i: Go's float -> integer conversion; truncation toward zero when in range, otherwise an
+		// implementation-defined value (no panic)
+		u.global("(declare-fun f2i (Real) Int)")
+		r := sc.define("toint", "Int", app("f2i", x))
 		trunc := fmt.Sprintf("(ite (>= %s 0.0) (to_int %s) (- (to_int (- %s))))", x, x, x)
-		// in range: truncation; out of range: unconstrained (no panic in Go)
 		sc.assume(fmt.Sprintf("(=> (and (> %s (- 9000000000000000000.0)) (< %s 9000000000000000000.0)) (= %s %s))", x, x, r, trunc))
 		if bt, ok := v.Type().Underlying().(*types.Basic); ok && bt.Info()&types.IsUnsigned != 0 {
-			r2 := sc.declare("touint", "Int")
+			u.global("(declare-fun f2u (Real) Int)")
+			r2 := sc.define("touint", "Int", app("f2u", x))
 			sc.assume(fmt.Sprintf("(and (>= %s 0) (=> (and (>= %s 0.0) (< %s 9000000000000000000.0)) (= %s %s)))", r2, x, x, r2, trunc))
 			r = r2
 		}
